@@ -73,7 +73,7 @@ Theorem C44_same_object_set_as_serial : forall p roots n order s,
 Proof. exact same_object_set_as_serial. Qed.
 Print Assumptions C44_same_object_set_as_serial.
 
-(** F17: a second build through the same Obj instances never recompiles the objects that kept their future ... *)
+(** F16b: a second build through the same Obj instances never recompiles the objects that kept their future ... *)
 Theorem C44_rebuild_skips_stale : forall p stale roots n order s o,
   order_ok p roots order = true -> run_of p stale n order s -> In o stale -> ~ In (EStart o) (log s).
 Proof. exact stale_never_started_p. Qed.
